@@ -2,7 +2,7 @@
   Model/C02.lean — value ↔ bits for every fixed-length dtype, every creation route, every reading route.
 
   SPEC layer (what the property says the canonical encodings are):
-    `encode : Req → Option Nat → Bits`, `valueOf : Req → …`, `leValue`, `Ieee.decode / Ieee.encode`
+    `encode : Req → Nat → Bits`, `valueOf`, `decodeSpec`, `Valid`, `ValidLen`, `leValue`, `Ieee.decode / Ieee.encode`
     (IEEE 754 binary16/32/64 as exact dyadics: a finite value is a natural number of units 2^-1074).
   ALG layer (the code, function by function; line numbers of /repo HEAD when this was written):
     bitstore_helpers.py  tidy_input_string (18), bin2bitstore (37), hex2bitstore (50), oct2bitstore (60),
@@ -229,7 +229,7 @@ inductive Req where
   | pad
   deriving DecidableEq, Repr
 
-/-- The seventeen `DtypeDefinition`s the property is about (__init__.py:213-254). -/
+/-- The seventeen `DtypeDefinition`s the property is about (__init__.py:212-253). -/
 inductive Kind where
   | uint | uintle | uintbe | int | intle | intbe | hex | bin | oct
   | float | floatle | bfloat | bfloatle | bits | bool | bytes | pad
@@ -262,14 +262,14 @@ def Kind.allowed : Kind → Allowed
   | .bool => .oneOf [1]
   | .uint | .int | .bin | .bits | .bytes | .pad => .any
 
-/-- `AllowedLengths.__contains__` (dtypes.py:227). -/
+/-- `AllowedLengths.__contains__` (dtypes.py:240). -/
 def Allowed.contains (a : Allowed) (n : Nat) : Bool :=
   match a with
   | .any => true
   | .step v0 v1 => ((n : Int) - v0) % ((v1 : Int) - v0) = 0
   | .oneOf l => l.contains n
 
-/-- `AllowedLengths.only_one_value` (dtypes.py:234). -/
+/-- `AllowedLengths.only_one_value` (dtypes.py:247). -/
 def Allowed.onlyOne : Allowed → Option Nat
   | .oneOf [x] => some x
   | _ => none
@@ -289,7 +289,7 @@ def Kind.name : Kind → String
   | .floatle => "floatle" | .bfloat => "bfloat" | .bfloatle => "bfloatle" | .bits => "bits"
   | .bool => "bool" | .bytes => "bytes" | .pad => "pad"
 
-/-- `dtype_register.names` restricted to the fixed-length dtypes: definitions and aliases (__init__.py:280-309). -/
+/-- `dtype_register.names` restricted to the fixed-length dtypes: definitions and aliases (__init__.py:284-313). -/
 def kindOfName (bo : ByteOrder) (s : String) : Option Kind :=
   match s with
   | "uint" | "u" => some .uint
@@ -318,7 +318,7 @@ structure Dt where
 
 def Dt.bitlength (d : Dt) : Option Nat := d.length.map (· * d.kind.multiplier)
 
-/-- `DtypeDefinition.get_dtype` (dtypes.py:311-330) for a fixed-length definition: ValueError for a length that is
+/-- `DtypeDefinition.get_dtype` (dtypes.py:323-345) for a fixed-length definition: ValueError for a length that is
     not allowed; no length + a single allowed value → that value. -/
 def getDtype (k : Kind) (len : Option Nat) : Except Err Dt :=
   match len with
@@ -343,7 +343,7 @@ def int2bitstore (i : Int) (len : Nat) (signed : Bool) : Except Err Bits :=
   else
     if 0 ≤ i ∧ i < (2 : Int) ^ len then .ok (natToBits len i.toNat) else .error .value
 
-/-- `intle2bitstore` (bitstore_helpers.py:233): `frombytes(int2bitstore(…).tobytes()[::-1])`. -/
+/-- `intle2bitstore` (bitstore_helpers.py:235): `frombytes(int2bitstore(…).tobytes()[::-1])`. -/
 def intle2bitstore (i : Int) (len : Nat) (signed : Bool) : Except Err Bits :=
   match int2bitstore i len signed with
   | .error e => .error e
@@ -372,13 +372,13 @@ def setInt (k : IntKind) (v : Int) (length cur : Option Nat) : Except Err Bits :
     if k.wholeByte ∧ l % 8 ≠ 0 then .error .value
     else if k.little then intle2bitstore v l k.signed else int2bitstore v l k.signed
 
-/-- `float2bitstore` (bitstore_helpers.py:238). -/
+/-- `float2bitstore` (bitstore_helpers.py:240). -/
 def float2bitstore (p64 : Nat) (len : Nat) (big : Bool) : Bits :=
   let f := if len = 16 then Ieee.f16 else if len = 32 then Ieee.f32 else Ieee.f64
   let b := packFloat f p64
   if big then b else bytesRev b
 
-/-- `bfloat2bitstore` (bitstore_helpers.py:114): `struct.pack('>f', f)[0:2]` resp. `struct.pack('<f', f)[2:4]`. -/
+/-- `bfloat2bitstore` (bitstore_helpers.py:109): `struct.pack('>f', f)[0:2]` resp. `struct.pack('<f', f)[2:4]`. -/
 def bfloat2bitstore (p64 : Nat) (big : Bool) : Bits :=
   let top := (packFloat Ieee.f32 p64).take 16
   if big then top else bytesRev top
@@ -387,7 +387,7 @@ def FltKind.big : FltKind → Bool
   | .floatbe | .bfloatbe => true
   | _ => false
 
-/-- `_setfloat` (bits.py:780) and `_setbfloatbe/le` (bits.py:805, 814). -/
+/-- `_setfloat` (bits.py:809) and `_setbfloatbe/le` (bits.py:834, 845). -/
 def setFlt (k : FltKind) (p64 : Nat) (length cur : Option Nat) : Except Err Bits :=
   match k with
   | .floatbe | .floatle =>
@@ -402,7 +402,7 @@ def setFlt (k : FltKind) (p64 : Nat) (length cur : Option Nat) : Except Err Bits
 def StrKind.set : StrKind → List Char → Except Err Bits
   | .hex => hex2bitstore | .oct => oct2bitstore | .bin => bin2bitstore
 
-/-- `_setbool` (bits.py:946): `value in (1, 'True', '1')` / `(0, 'False', '0')` (`True == 1`, `False == 0`). -/
+/-- `_setbool` (bits.py:984): `value in (1, 'True', '1')` / `(0, 'False', '0')` (`True == 1`, `False == 0`). -/
 def setBool (a : BoolArg) : Except Err Bits :=
   match a with
   | .py b => .ok [b]
@@ -411,7 +411,7 @@ def setBool (a : BoolArg) : Except Err Bits :=
     if s = "True".toList ∨ s = "1".toList then .ok [true]
     else if s = "False".toList ∨ s = "0".toList then .ok [false] else .error .value
 
-/-- `_setbytes_with_truncation` (bits.py:616) with `offset=None`; `length` in bits. -/
+/-- `_setbytes_with_truncation` (bits.py:640) with `offset=None`; `length` in bits. -/
 def setBytesWithTruncation (d : List Nat) (length : Option Nat) : Except Err Bits :=
   match length with
   | none => .ok (fromBytes d)
@@ -433,7 +433,7 @@ def rawSet (q : Req) (passed : Bool) (length cur : Option Nat) : Except Err Bits
       | none => .ok []                                -- `BitStore(None)` is empty
       | some n => .ok (List.replicate n false)
 
-/-- `Dtype.set_fn` (dtypes.py:152-158). -/
+/-- `Dtype.set_fn` (dtypes.py:161-167). -/
 def dtSet (d : Dt) (q : Req) (cur : Option Nat) : Except Err Bits :=
   if d.kind.setNeedsLength then rawSet q true d.bitlength cur else rawSet q false none cur
 
@@ -453,7 +453,7 @@ def initWith (d : Dt) (q : Req) : Except Err Bits :=
     | some n => if x.length ≠ n then .error .value else .ok x
     | none => .ok x
 
-/-- `Cls(**{name: v}, length=len)` — `_initialise` (bits.py:135): `bytes=` is special-cased (length counts bits and
+/-- `Cls(**{name: v}, length=len)` — `_initialise` (bits.py:137): `bytes=` is special-cased (length counts bits and
     truncates by design; the harness passes `8·len`), everything else is `Dtype(k, length).set_fn(self, v)` followed
     by the comparison of the resulting length with the dtype's. -/
 def viaKeyword (q : Req) (len : Option Nat) : Except Err Bits :=
@@ -478,7 +478,7 @@ def viaNameLen (q : Req) (len : Option Nat) : Except Err Bits :=
     raw `set_fn(a, v)`. -/
 def viaProp (q : Req) (cur : Nat) : Except Err Bits := rawSet q false none (some cur)
 
-/-- `a.<name><len> = v` — `BitArray.__setattr__` (bitarray_.py:123): `set_fn` on a fresh object, then
+/-- `a.<name><len> = v` — `BitArray.__setattr__` (bitarray_.py:131): `set_fn` on a fresh object, then
     `len(x) != dtype.bitlength` → CreationError. -/
 def viaPropLen (q : Req) (len : Option Nat) (cur : Nat) : Except Err Bits :=
   match len with
@@ -491,7 +491,7 @@ def viaPropLen (q : Req) (len : Option Nat) (cur : Nat) : Except Err Bits :=
       | .error e => .error e
       | .ok x => if some x.length ≠ d.bitlength then .error .value else .ok x
 
-/-- `Dtype.build` (dtypes.py:165): `set_fn` on an empty `Bits()`, then the length check. -/
+/-- `Dtype.build` (dtypes.py:174): `set_fn` on an empty `Bits()`, then the length check. -/
 def dtBuild (d : Dt) (q : Req) : Except Err Bits :=
   match dtSet d q (some 0) with
   | .error e => .error e
@@ -505,7 +505,7 @@ def viaBuild (q : Req) (len : Option Nat) : Except Err Bits :=
   | .error e => .error e
   | .ok d => dtBuild d q
 
-/-- `bitstore_from_token(name, token_length, value)` (bitstore_helpers.py:258) for a non-literal token. -/
+/-- `bitstore_from_token(name, token_length, value)` (bitstore_helpers.py:261) for a non-literal token. -/
 def bitstoreFromToken (q : Req) (len : Option Nat) : Except Err Bits :=
   match getDtype q.kind len with
   | .error e => .error e
@@ -668,7 +668,7 @@ inductive RVal where
   | none
   deriving DecidableEq, Repr
 
-/-- The `Bits._get…` methods (bits.py:631-995). -/
+/-- The `Bits._get…` methods (bits.py:661-1033). -/
 def getRaw (k : Kind) (b : Bits) : Except Err RVal :=
   match k with
   | .uint => if b.length = 0 then .error .value else .ok (.int (bitsToNat b))
@@ -698,7 +698,7 @@ def getRaw (k : Kind) (b : Bits) : Except Err RVal :=
   | .pad => .ok .none
 
 /-- `DtypeDefinition.get_fn`: the allowed-length check wrapped around the getter when the definition lists lengths
-    (dtypes.py:268-278). -/
+    (dtypes.py:278-288). -/
 def getFn (k : Kind) (b : Bits) : Except Err RVal :=
   if k.allowed ≠ .any ∧ !k.allowed.contains b.length then .error .value else getRaw k b
 
@@ -718,7 +718,7 @@ inductive Reader where
   | prop | propLen | parse | unpack | read
   deriving DecidableEq, Repr
 
-/-- `s.<name><len>` — `Bits.__getattr__` (bits.py:168): unknown dtype/length → AttributeError; a length that differs
+/-- `s.<name><len>` — `Bits.__getattr__` (bits.py:173): unknown dtype/length → AttributeError; a length that differs
     from the bitstring's → ValueError. Without digits it is the class property. -/
 def viaGetPropLen (k : Kind) (len : Option Nat) (b : Bits) : Except Err RVal :=
   match len with
@@ -731,14 +731,14 @@ def viaGetPropLen (k : Kind) (len : Option Nat) (b : Bits) : Except Err RVal :=
       | some n => if b.length ≠ n then .error .value else getFn k b
       | none => getFn k b
 
-/-- `Dtype(name, len).parse(s)` (dtypes.py:176): no comparison of lengths at all. -/
+/-- `Dtype(name, len).parse(s)` (dtypes.py:185): no comparison of lengths at all. -/
 def viaParse (k : Kind) (len : Option Nat) (b : Bits) : Except Err RVal :=
   match getDtype k len with
   | .error e => .error e
   | .ok _ => getFn k b
 
-/-- A dtype without a length takes all the bits from `pos` on (`read`, bitstream.py:331-340; `_read_dtype_list`,
-    bits.py:1205-1217). -/
+/-- A dtype without a length takes all the bits from `pos` on (`read`, bitstream.py:303-312; `_read_dtype_list`,
+    bits.py:1243-1255). -/
 def resolveStretchy (d : Dt) (avail : Nat) : Except Err Dt :=
   match d.bitlength with
   | some _ => .ok d
@@ -746,7 +746,7 @@ def resolveStretchy (d : Dt) (avail : Nat) : Except Err Dt :=
     if avail % d.kind.multiplier ≠ 0 then .error .value
     else getDtype d.kind (some (avail / d.kind.multiplier))
 
-/-- `s.unpack("name:len")` (bits.py:1150-1223) with a single token: the one value, from position 0. -/
+/-- `s.unpack("name:len")` (bits.py:1188-1261) with a single token: the one value, from position 0. -/
 def viaUnpack (k : Kind) (len : Option Nat) (b : Bits) : Except Err RVal :=
   match getDtype k len with
   | .error e => .error e
@@ -755,7 +755,7 @@ def viaUnpack (k : Kind) (len : Option Nat) (b : Bits) : Except Err RVal :=
     | .error e => .error e
     | .ok d' => readFn d' b 0
 
-/-- `s.read("name:len")` at position `pos` (bitstream.py:293-351): the value and the new position. -/
+/-- `s.read("name:len")` at position `pos` (bitstream.py:265-323): the value and the new position. -/
 def streamRead (k : Kind) (len : Option Nat) (b : Bits) (pos : Nat) : Except Err (RVal × Nat) :=
   match getDtype k len with
   | .error e => .error e
